@@ -395,6 +395,38 @@ def run(ctx: Ctx):
     # a restarted controller reads the history back: the header must be there whatever state the file was in
     from .c16 import history_header_rule
     history_header_rule(ctx, "S1")
+    # S7 (continued): `log10_learning_rate` is None for 'keep the optimizer's own rate' and a number otherwise - 0.0 (a rate of exactly
+    # one) included. It may only be tested against None; a truthiness test treats the rate 1.0 as 'not configured' in one place while
+    # the other place (correctly) applies it, so the history records a rate the optimizer does not run at.
+    truthy = []
+    n_tests = 0
+    for f_ in ctx.owned():
+        if f_.module.relname != rel:
+            continue
+        for n in own_nodes(f_.node):
+            tests_ = []
+            if isinstance(n, (ast.If, ast.IfExp, ast.While)):
+                tests_ = [n.test]
+            elif isinstance(n, ast.Assert):
+                tests_ = [n.test]
+            for t_ in tests_:
+                stack = [t_]
+                while stack:
+                    x = stack.pop()
+                    if isinstance(x, ast.BoolOp):
+                        stack.extend(x.values)
+                    elif isinstance(x, ast.UnaryOp) and isinstance(x.op, ast.Not):
+                        stack.append(x.operand)
+                    elif isinstance(x, ast.Attribute) and x.attr == "log10_learning_rate":
+                        truthy.append((f_, x))
+                    elif isinstance(x, ast.Compare) and any(isinstance(y, ast.Attribute) and y.attr == "log10_learning_rate" for y in ast.walk(x)):
+                        n_tests += 1
+    col.floor("initial_rate_none_tests", n_tests, 2)
+    col.ob("G13", "S7", f"{rel}::initial-rate-tested-against-None-only", not truthy,
+           (f"`{u(truthy[0][1])}` is tested for truth in {truthy[0][0].qualname}: a configured rate of exactly 1.0 (log10 = 0.0) counts as 'not "
+            f"configured' there, so the epoch-0 row keeps lr = None, the first update falls back to the optimizer's constructor default, and the "
+            f"recorded rate (and every later reduction) differs from the rate the optimizer was set to") if truthy else "", rel,
+           truthy[0][1].lineno if truthy else 1)
     plumbing(ctx, "S0", g4=False)
     return dict(
         explanation=(
